@@ -678,6 +678,45 @@ def main(out_path):
           'def recvCltvBelowMin (height min_final_cltv_expiry_delta cltv_expiry : Nat) : Bool :=',
           '  ' + cltv_low(inner2), '']
 
+    # ---- the ORDER of the deciding statements on the path decoded onion -> claimable_payments --------------------------
+    # create_recv_pending_htlc_info (tests, then the routing selection, then Ok(PendingHTLCInfo)), then process_receive_htlcs
+    # (verify under has_recipient_created_payment_secret, the min_final_cltv test, then handle_claimable_htlc).  The stage list
+    # is emitted in TEXT order; Model.runStages interprets it and recv_tests_precede_accumulator (Props/C04) needs the
+    # accumulator to come last.
+    _, _, body = find_fn(op, 'create_recv_pending_htlc_info')
+    cb_ = strip_comments(body)
+    def pos1(txt, needle, what):
+        i_ = txt.find(needle)
+        if i_ < 0: raise TranslateError("%s: `%s` not found" % (what, needle))
+        return i_
+    st1 = [(pos1(cb_, 'LocalHTLCFailureReason::FinalIncorrectCLTVExpiry', 'create_recv_pending_htlc_info'), 'finalCltv'),
+           (pos1(cb_, 'LocalHTLCFailureReason::PaymentClaimBuffer', 'create_recv_pending_htlc_info'), 'expirySoon'),
+           (pos1(cb_, 'LocalHTLCFailureReason::FinalIncorrectHTLCAmount', 'create_recv_pending_htlc_info'), 'amount'),
+           (pos1(cb_, 'let routing =', 'create_recv_pending_htlc_info'), 'routing')]
+    okpos = pos1(cb_, 'Ok(PendingHTLCInfo', 'create_recv_pending_htlc_info')
+    if any(p_ > okpos for p_, _ in st1): raise TranslateError("create_recv_pending_htlc_info: a final-hop test follows `Ok(PendingHTLCInfo ..)`")
+    if not re.search(r'cltv_expiry_height, payment_metadata, None, false, keysend_preimage\.is_none\(\), None, None\)', norm(cb_)):
+        raise TranslateError("create_recv_pending_htlc_info: has_recipient_created_payment_secret of a plain Receive is no longer keysend_preimage.is_none()")
+    _, _, body = find_fn(cm, 'process_receive_htlcs')
+    pb_ = strip_comments(body)
+    if not re.search(r'let payment_preimage = if has_recipient_created_payment_secret \{\s*if let Some\(ref payment_data\) = payment_data \{\s*let verify_res = inbound_payment::verify\(', pb_):
+        raise TranslateError("process_receive_htlcs: inbound_payment::verify is no longer run under `if has_recipient_created_payment_secret { if let Some(ref payment_data) = payment_data {`")
+    st2 = [(pos1(pb_, 'inbound_payment::verify(', 'process_receive_htlcs'), 'verifySecret'),
+           (pos1(pb_, 'if let Some(min_final_cltv_expiry_delta) = min_final_cltv_expiry_delta', 'process_receive_htlcs'), 'minCltv')]
+    hc = [m_.start() for m_ in re.finditer(r'self\.handle_claimable_htlc\(', pb_)]
+    if len(hc) != 2: raise TranslateError("process_receive_htlcs: expected 2 calls of handle_claimable_htlc, found %d" % len(hc))
+    # both calls (Invoice arm, Spontaneous arm) are alternatives of one `match`: one accumulator stage at the position of the first
+    mm_ = pos1(pb_, 'match claimable_htlc.onion_payload', 'process_receive_htlcs')
+    if not (mm_ < hc[0]): raise TranslateError("process_receive_htlcs: handle_claimable_htlc is no longer called inside `match claimable_htlc.onion_payload`")
+    st2.append((hc[0], 'accumulator'))
+    if re.search(r'claimable_payments\s*\.\s*(lock|claimable_payments)', pb_[:hc[0]]) and 'claimable_payments.lock()' in pb_[:min(p_ for p_, _ in st2)]:
+        raise TranslateError("process_receive_htlcs touches claimable_payments in front of the receive tests")
+    order = [n_ for _, n_ in sorted(st1)] + [n_ for _, n_ in sorted(st2)]
+    L += ['/-- the deciding statements between the decoded onion of a final-hop HTLC and the claimable_payments map -/',
+          'inductive RecvStage where', '  | finalCltv | expirySoon | amount | routing | verifySecret | minCltv | accumulator', '  deriving DecidableEq, Repr', '',
+          '/-- their order in the Rust text: create_recv_pending_htlc_info (up to `Ok(PendingHTLCInfo ..)`), then process_receive_htlcs -/',
+          'def recvStages : List RecvStage := [%s]' % ', '.join('.' + n_ for n_ in order), '']
+
     # ---- the fail-back sites of the accumulator: WHICH HTLCs are failed, with WHICH LocalHTLCFailureReason ---------
     lcv = lambda n: n[0].lower() + n[1:]
     mi = re.search(r'impl Into<LocalHTLCFailureReason> for FailureCode\s*\{', cm)
